@@ -38,7 +38,9 @@ atom("o_wild_notpsl", "origins", "valid", ["https://*.www.ck", "https://*.city.k
 bad = ["invalid", "prohibited"]
 atom("o_null", "origins", "malformed", ["null"], reasons=bad)
 atom("o_file", "origins", "malformed", ["file:///somepath", "file://example.com"], reasons=bad)
-atom("o_unicode", "origins", "malformed", ["https://www.résumé.com", "https://exämple.com", "https://\u212aelvin.example.com", "https://exa\u0130mple.com", "http\u017f://example.com"], reasons=bad)
+atom("o_unicode", "origins", "malformed", ["https://www.résumé.com", "https://exämple.com", "https://\u212aelvin.example.com", "https://exa\u0130mple.com", "http\u017f://example.com",
+                                          # 3-byte characters whose UTF-8 bytes equal ASCII label bytes + 0x80 (a 7-bit mask turns them into letters)
+                                          "https://\u5c31.com", "https://\u4e2d.example.com", "http://\u5c39.example.com:8080", "https://*.\u5c31.example.com", "https://example.\uac30.kr"], reasons=bad)
 atom("o_upper", "origins", "malformed", ["https://EXAMPLE.com", "https://example.Com"], reasons=bad)
 atom("o_defport", "origins", "malformed", ["https://example.com:443", "http://example.com:80", "http://*.example.com:80"], reasons=bad)
 atom("o_badport", "origins", "malformed", ["https://example.com:0", "https://example.com:65536", "https://example.com:080", "https://example.com:",
